@@ -117,7 +117,8 @@ def check_case(ctx, g, model=None, stopping=True, limit=5.0):
         nt = bool(judge(ctx, g, prune, o, stopping)) or nt
         if model is not None and len(g["players"]) <= 400:
             model.add("solve", dict(wire.game_payload(g), prune=prune), expect=o,
-                      inp={"game": gen.desc(g), "prune": prune}, suite="corr.rewards")
+                      inp={"game": gen.desc(g), "prune": prune}, suite="corr.rewards",
+                      cmp=wire.staged(ctx, {"final"}, ("outcome", "probs", "reachstrat", "nodes", "rewards")))
     ctx.case({"game": gen.desc(g)} if len(g["players"]) <= 30 else {"meta": g.get("_meta")}, nt)
     ctx.count("family=" + str(g.get("_meta", {}).get("family", "?")).split(":")[0])
 
